@@ -93,6 +93,8 @@ func (p Polygon) Validate() error {
 				jStart := p.rings[j].Coordinates().GetXY(0)
 				nestedFwd := relatePointToRing(iStart, p.rings[j]) == interior
 				nestedRev := relatePointToRing(jStart, p.rings[i]) == interior
+				nestedFwd = nestedFwd || ringNestedInRing(p.rings[i], p.rings[j])
+				nestedRev = nestedRev || ringNestedInRing(p.rings[j], p.rings[i])
 				if nestedFwd || nestedRev {
 					return violateRingNested.errAtXY(iStart)
 				}
@@ -148,6 +150,23 @@ func (p Polygon) Validate() error {
 		return violateInteriorConnected.err()
 	}
 	return nil
+}
+
+// ringNestedInRing reports whether the first control point of ring a that is
+// not on the boundary of ring b lies inside ring b. The start point alone is
+// not enough to detect nesting, because it may be the point where the two
+// rings touch.
+func ringNestedInRing(a, b LineString) bool {
+	seq := a.Coordinates()
+	for k := 0; k < seq.Length(); k++ {
+		switch relatePointToRing(seq.GetXY(k), b) {
+		case interior:
+			return true
+		case exterior:
+			return false
+		}
+	}
+	return false
 }
 
 func validateRing(r LineString) error {
